@@ -205,7 +205,7 @@ class Run:
 
     def write_replays(self):
         out = []
-        d = os.path.join(VERIF, "replays", self.prop)
+        d = os.path.join(os.environ.get("VERIF_REPLAY_DIR") or os.path.join(VERIF, "replays"), self.prop)
         os.makedirs(d, exist_ok=True)
         for g in self.new:
             art = {"property": self.prop, "case": g["case"], "violation": g["v"], "count_in_run": g["count"],
@@ -240,8 +240,9 @@ class Run:
             "coverage": cov, "assumptions": self.assumptions,
             "wall_s": round(time.time() - self.t0, 2), "violations": len(self.new),
         }
-        os.makedirs(os.path.join(VERIF, "evidence"), exist_ok=True)
-        with open(os.path.join(VERIF, "evidence", f"{self.prop}.json"), "w") as f:
+        evdir = os.environ.get("VERIF_EVIDENCE_DIR") or os.path.join(VERIF, "evidence")
+        os.makedirs(evdir, exist_ok=True)
+        with open(os.path.join(evdir, f"{self.prop}.json"), "w") as f:
             json.dump(ev, f, indent=1, sort_keys=True, default=repr)
         for kid, d in sorted(self.known_hits.items()):
             print(f"KNOWN-FINDING: property={self.prop} {d['entry'].get('what')} [{d['count']} cases, e.g. {jdump(d['example'])[:160]}]")
